@@ -171,3 +171,40 @@ pub fn sequence_checks<T: SNum, M: serde::Serialize + serde::de::DeserializeOwne
         }
     }
 }
+
+// ------------------------------------------------------------------------------------ scale of use
+thread_local! {
+    static BIG: std::cell::Cell<u32> = std::cell::Cell::new(0);
+}
+
+/// 0: the monitor's ordinary size distribution; > 0: the `*_large` families are running and the size draws of the
+/// monitor move to "scale of use" sizes (thousands of rows, hundreds of columns / classes / clusters)
+pub fn big() -> u32 {
+    BIG.with(|b| b.get())
+}
+
+/// runs `f` with the scale level set (reset afterwards, also when `f` unwinds)
+pub fn with_big<R>(level: u32, f: impl FnOnce() -> R) -> R {
+    struct Reset(u32);
+    impl Drop for Reset {
+        fn drop(&mut self) {
+            BIG.with(|b| b.set(self.0));
+        }
+    }
+    let _r = Reset(big());
+    BIG.with(|b| b.set(level));
+    f()
+}
+
+/// Parameter objects are handed to `fit` either as built (even case index) or as a clone of the built object (odd case
+/// index): a user who fits several models from one parameter object (folds, grids) passes clones.
+pub fn reused<P: Clone>(index: u64, p: P) -> P {
+    if index % 2 == 1 {
+        #[allow(clippy::redundant_clone)]
+        let q = p.clone();
+        drop(p);
+        q
+    } else {
+        p
+    }
+}
